@@ -335,10 +335,16 @@ void (*edge_tab[])(void) = { unreach1, (void (*)(void))unreach2, empty_fn };
 char *edge_zero = zero_size_obj;
 """
 
+# References to linker-defined symbols: they take symbol-table (and, in PIC outputs, dynamic-relocation) space like any other
+LDSYMS_C = r"""
+extern char _end[], _etext[], _edata[];
+char *c23_ld_syms[] = { _end, _etext, _edata };
+"""
+
 KINDS = ["static", "static-pie", "pie", "dyn-nonpie", "shared"]
 SINGLE_OPTS = [[], ["-z", "pack-relative-relocs"], ["--hash-style=gnu"], ["--hash-style=sysv"], ["--hash-style=both"], ["--build-id=none"],
                ["--build-id=fast"], ["--build-id=sha1"], ["--build-id=uuid"], ["--eh-frame-hdr"], ["--no-eh-frame-hdr"], ["--strip-all"],
-               ["--strip-debug"], ["--no-relax"], ["--got-plt-syms"], ["-z", "now"], ["--gc-sections"], ["--no-gc-sections"]]
+               ["--strip-debug"], ["--no-relax"], ["--retain-symbols-file=retain.txt"], ["--retain-symbols-file=retain.txt", "--hash-style=both"], ["--got-plt-syms"], ["-z", "now"], ["--gc-sections"], ["--no-gc-sections"]]
 
 
 def build_objects(d):
@@ -364,6 +370,7 @@ def build_objects(d):
               lu.cc_obj(sub, "tls", TLS_C, flags=common + tls_flags),
               lu.cc_obj(sub, "tlsdesc", TLSDESC_C, flags=common + tls_flags + ["-mtls-dialect=gnu2"]),
               lu.cc_obj(sub, "tlsie", TLSIE_C, flags=common + tls_flags),
+              lu.cc_obj(sub, "ldsyms", LDSYMS_C, flags=common + cf),
               lu.asm_obj(sub, "odd", ODD_S)]
         if "-DSHARED" not in cf:
             o_.append(lu.cc_obj(sub, "tga", TGA_C, flags=common + cf))
@@ -392,6 +399,7 @@ def sweep(ctx):
     d = os.path.join(ctx.scratch, "sweep")
     os.makedirs(d, exist_ok=True)
     objs, lib = build_objects(d)
+    lu.write(os.path.join(d, "retain.txt"), "c23_tgt\nedge_tab\nunreach1\n")
     combos = [(k, o) for k in KINDS for o in SINGLE_OPTS]
     nrand = 12 if ctx.quick else 400
     for _ in range(nrand):
